@@ -216,10 +216,21 @@ class State:
 
 def bv(x, bits=64): return z3.BitVecVal(x, bits)
 
+def _has_fp(e, budget=400):
+    """does the term contain an IEEE operation / predicate (bounded search)"""
+    stack = [e]
+    while stack and budget > 0:
+        t = stack.pop(); budget -= 1
+        if z3.is_app(t):
+            if t.decl().name().startswith('fp.'): return True
+            stack.extend(t.children())
+    return False
+
 class Exec:
     def __init__(s, mod, timeout_ms=20000):
         s.M = mod; s.solver = z3.Solver(); s.solver.set('timeout', timeout_ms); s.queries = 0; s.solver_time = 0.0; s.accesses = 0; s.slowest = 0.0
         s.max_block_visits = 8; s.summaries = {}; s.gobj = {}; s.gaddr = {}; s.new_cap = 256
+        s.fork_fp_selects = False   # fork (instead of building an ite) on a select whose condition compares IEEE values: keeps the addresses of a branch-free binary search concrete
     def feasible(s, pc, extra=None):
         s.queries += 1; t0 = time.time()
         s.solver.push()
@@ -486,6 +497,16 @@ class Exec:
                 env[dst] = z3.simplify(z3.If(c, bv(1, 1), bv(0, 1)))
             elif op == 'select':
                 cty = parse_type(p); c = s.operand(p, cty, env); p.expect(','); ty = parse_type(p); a = s.operand(p, ty, env); p.expect(','); parse_type(p); b = s.operand(p, ty, env)
+                if s.fork_fp_selects and not z3.is_bv_value(c) and _has_fp(c):
+                    ct = z3.simplify(c == bv(1, 1))
+                    for cond, val in ((ct, a), (z3.simplify(z3.Not(ct)), b)):
+                        if z3.is_false(cond): continue
+                        if z3.is_true(cond) or s.feasible(st.pc, cond):
+                            st2 = st.clone()
+                            if not z3.is_true(cond): st2.pc.append(cond)
+                            env2 = dict(env); env2[dst] = val
+                            yield from s.exec_insts(f, label, insts, k, env2, st2, visits, depth)
+                    return
                 env[dst] = z3.simplify(z3.If(c == bv(1, 1), a, b))
             elif op in ('zext', 'sext', 'trunc', 'bitcast', 'ptrtoint', 'inttoptr'):
                 ty = parse_type(p); a = s.operand(p, ty, env); p.expect('to'); ty2 = parse_type(p); nb = s.bits(ty2)
